@@ -556,6 +556,7 @@ func vcReadCheckpoint(dir string) vcCkInfo {
 		Current *struct {
 			Name        string     `json:"name"`
 			HasSnapshot bool       `json:"has_snapshot"`
+			Phase       string     `json:"phase"`
 			Files       []vcCkFile `json:"files"`
 		} `json:"current_graph"`
 	}
